@@ -9,7 +9,8 @@ LEVEL_TEXT = ('Serial Thrift transport: for a raise / EOF / timeout at each I/O 
               'and a transport that does not report itself closed is connected; _OpenImpl failure closes and faults; _Fault is idempotent. '
               'Multiplexed transport: _Shutdown on an active transport sets Closed, closes the socket, raises the fault signal iff asked, posts one error into every stack of the tag map and empties it, and does nothing when already closed; '
               '_SendLoop and _RecvLoop end in _Shutdown on any exception (error or end-of-stream at either read, error at the write); the ping timeout helper shuts the connection down unless a successful ping reply arrived; '
-              'a ping travels through the send queue (the send loop is the only writer).')
+              'a ping travels through the send queue (the send loop is the only writer).'
+              ' Added later: SocketTransportSink._PingLoop (every round that finds the transport active sends a ping, whatever is queued), so a silent peer is always met by the ping timeout.')
 LEVEL_NOTE = ('Trusted: pyvc encoding, z3; socket externs (open/close/write/readAll may raise; cannot succeed on a closed handle; a gevent Timeout may surface only in the serial transport\'s calls); Greenlet.kill; '
               'other greenlets change a mux transport only through the verified operations (CONCURRENCY["Mux"]). Not proved: that the ping loop keeps running (liveness); mux _OpenImpl/_CheckInitialConnection are not yet units.')
 ASSUMPTIONS = ['socket I/O externs as listed', 'Open() is issued on a transport that has not been closed']
